@@ -4,7 +4,7 @@ import json
 import itertools
 from harness import fml
 from harness.common import parse_fields
-from harness.runner import Check, offline_case, online_case, need_vars, expect_vals
+from harness.runner import Check, offline_case, online_case, need_vars, expect_vals, gen_obj, with_object_fields
 
 SEMS = ['standard', 'output-robustness', 'input-robustness', 'output-vacuity', 'input-vacuity']
 
@@ -12,7 +12,9 @@ SEMS = ['standard', 'output-robustness', 'input-robustness', 'output-vacuity', '
 class C06(Check):
     PID = 'C06'
     RULE = ('seeded random formulas (predicates mixing input and output variables, constant-only predicates, xor/iff inside predicate operands) x 5 semantics '
-            'x every input/output assignment of <= 3 variables x {offline, online, pastified online for bounded-future formulas} x {combined, dedicated} specification constructors; implementation '
+            'x every input/output assignment of <= 3 variables x {offline, online, pastified online for bounded-future formulas} x {combined, dedicated} specification constructors '
+            'x {float variables, variables declared with an imported object type (harness.msgs.Msg) and read through a field xa.value / a nested field xa.inner.v, the input/output '
+            'declaration being made for the variable name: every corner formula x every io assignment x 5 semantics with all / one / the other variable an object, and a quarter of the random cases}; implementation '
             'compared with rho under the property\'s own definition of insensitive predicates (pk_spec) and with the model of the IA visitors (pk_impl); '
             'non-trivial = a predicate is insensitive under the drawn assignment for a non-standard semantics; distinct by (formula, semantics, io, data)')
 
@@ -47,6 +49,19 @@ class C06(Check):
                 for sem in (SEMS if len(cases) < 400 else [rng.choice(SEMS)]):
                     cases.append({'f': f, 'n': n, 'nv': nv, 'cols': cols, 'times': list(range(n)), 'io': list(io), 'sem': sem,
                                   'ctor': rng.choice(['combined', 'split'])})
+        # variables that are objects, read through a field: the io declaration names the variable (xa), the formula names xa.value
+        orng = __import__('random').Random(rng.getrandbits(64))
+        for c in cases:
+            if orng.random() < 0.25:
+                c['obj'] = gen_obj(orng, c['nv'], force=True)
+        shapes = [['value', 'value'], ['value', ''], ['', 'inner.v'], ['inner.v', 'value']]
+        for k, f in enumerate(base):
+            n = orng.choice([1, 2, 3, 5])
+            cols = fml.gen_trace(orng, 2, n)
+            for io in itertools.product([0, 1], repeat=2):
+                for sem in SEMS:
+                    cases.append({'f': f, 'n': n, 'nv': 2, 'cols': cols, 'times': list(range(n)), 'io': list(io), 'sem': sem,
+                                  'ctor': orng.choice(['combined', 'split']), 'obj': shapes[(k + io[0] + 2 * io[1]) % len(shapes)]})
         return cases
 
     def model_lines(self, c):
@@ -70,7 +85,7 @@ class C06(Check):
             out.append(offline_case(c['f'], c['cols'], c['times'], c['nv'], semantics='standard', ctor=c.get('ctor', 'combined')))
         if self.pastified(c):
             out.append(online_case(c['f'], c['cols'], c['times'], c['nv'], pastify=True, **kw))
-        return out
+        return [with_object_fields(x, c.get('obj')) for x in out]
 
     def judge(self, c, mlines, ires):
         m1, m2 = parse_fields(mlines[0]), parse_fields(mlines[1])
@@ -80,7 +95,7 @@ class C06(Check):
             return 'dropped', None
         spec = json.loads(json.dumps(expect_vals([fml.parse_val(x) for x in m2['RHO']])))
         impl_model = json.loads(json.dumps(expect_vals([fml.parse_val(x) for x in m1['OFF']])))
-        det = {'semantics': c['sem'], 'io': c['io'], 'expected': {'source': 'rho with every insensitive predicate contributing +-inf / 0 (pk_spec)', 'values': spec}, 'model': impl_model}
+        det = {'semantics': c['sem'], 'io': c['io'], 'object_fields': c.get('obj'), 'expected': {'source': 'rho with every insensitive predicate contributing +-inf / 0 (pk_spec)', 'values': spec}, 'model': impl_model}
         sigs = []
         for i in ires:
             if i['setup']['status'] != 'ok':
@@ -130,13 +145,27 @@ class C06(Check):
         return False
 
     def features(self, c):
-        return [c['sem']] + sorted(o for o in fml.ops(c['f']) if o.startswith('pred'))
+        return [c['sem']] + sorted(o for o in fml.ops(c['f']) if o.startswith('pred')) + self.obj_features(c)
+
+    @staticmethod
+    def obj_features(c):
+        # a variable read through a field of an object, by its io declaration; 'insensitive' = some predicate is insensitive
+        # only because of the declaration of such a variable
+        obj = c.get('obj') or []
+        used = [i for i in fml.fvars(c['f']) if i < len(obj) and obj[i]]
+        fs = []
+        if used:
+            fs.append('object-field-variable')
+            fs += sorted(set('object-field:' + ('input' if c['io'][i] else 'output') for i in used))
+            fs += sorted(set('object-field-kind:' + obj[i] for i in used))
+        return fs
 
     def key(self, c):
-        return json.dumps([fml.to_sx(c['f']), c['sem'], c['io'], c['cols']])
+        return json.dumps([fml.to_sx(c['f']), c['sem'], c['io'], c['cols'], c.get('obj') or []])
 
     def describe(self, c):
-        return {'spec': 'out = ' + fml.to_text(c['f']), 'semantics': c['sem'], 'io': c['io'], 'data': c['cols']}
+        spec = with_object_fields({'spec': 'out = ' + fml.to_text(c['f']), 'vars': fml.VARS[:c['nv']]}, c.get('obj'))['spec']
+        return {'spec': spec, 'semantics': c['sem'], 'io': c['io'], 'object_fields': c.get('obj'), 'data': c['cols']}
 
 
 def main(tier, seed, replay=None):
